@@ -947,11 +947,26 @@ class ChainedVisitor(ASTVisitor):
     def __init__(self, *visitors: ASTVisitor):
         self.visitors = tuple(visitors)
 
+    def _members(self):
+        # A nested chain behaves as its members in place (unless it is a
+        # subclass with its own ``enter`` / ``leave``).
+        for v in self.visitors:
+            cls = type(v)
+            if (
+                isinstance(v, ChainedVisitor)
+                and cls.enter is ChainedVisitor.enter
+                and cls.leave is ChainedVisitor.leave
+            ):
+                for member in v._members():
+                    yield member
+            else:
+                yield v
+
     def enter(self, node: N) -> N:
         cur = node  # type: Optional[N]
         entered = []  # type: list
         skipped = False
-        for v in self.visitors:
+        for v in self._members():
             if cur is None:
                 break
             try:
@@ -970,5 +985,5 @@ class ChainedVisitor(ASTVisitor):
         return node
 
     def leave(self, node: N) -> None:
-        for v in self.visitors[::-1]:
+        for v in list(self._members())[::-1]:
             v.leave(node)
